@@ -1,6 +1,6 @@
 """C04 — never more than `concurrency` iterations in flight; all workers usable."""
 ID = "C04"
-PROPS = ["F1Verif.Props.C04", "F1Verif.Props.FactsC04", "F1Verif.Props.CPool", "F1Verif.Props.RefineC02", "F1Verif.Props.RefineC02W"]
+PROPS = ["F1Verif.Props.C04", "F1Verif.Props.FactsC04", "F1Verif.Props.CPool", "F1Verif.Props.RefineC02", "F1Verif.Props.RefineC02W", "F1Verif.Props.RefineC05S"]
 ALSO = ["F1Verif.Props.Pool"]
 RULE = ("engine B/C on real pools: pool.usable — rounds in which all W gated iterations finish together with k < W "
         "requests pending and a tick of W follows after a swept delay of 0-50 us; W iterations must be executing again "
